@@ -1,5 +1,6 @@
 import Clikit.Lemmas.Progress
 import Clikit.Lemmas.ProgressClean
+import Clikit.Lemmas.ProgressSetters
 /-!
 # C16 - a progress bar always shows a truthful, well-formed frame and ends at 100 %
 
@@ -443,5 +444,152 @@ example := ansi_line_latest_dec cAnsi (by decide) (by decide) (by decide) 3 6400
   [] _ _ rfl
 example := plain_single_lines_dec cPlainW (by decide) (by decide) (by decide) 0 64000 opsW (by decide)
 example := plain_own_line cPlainW (by decide) (by decide) 0 64000 opsW
+
+/-! ## Setters called in the middle of a run
+
+`runC` (Model/Progress.lean): histories in which the public configuration setters
+(`min_seconds_between_redraws`, `max_seconds_between_redraws`, `set_redraw_frequency`,
+`set_bar_width`, the three character setters, `set_format`) are called between the operations
+of a RUNNING bar.  Every event carries the configuration in force when the call was made
+(`e.cfg`); the statements above hold with that configuration - in particular the throttle is
+judged against the interval configured at the time of each advance, not at the time of the
+previous frame. -/
+
+/-- **Throttling under the interval in force.**  A frame drawn by `advance` / `set_progress` at
+a step other than the maximum is drawn only if at least the minimum interval CONFIGURED AT THAT
+CALL has passed since the last write AND (the redraw period changed OR the maximum interval
+configured at that call has passed). -/
+theorem throttle_current_config (c : Config) (s0 : State) (calls : List (Call × Nat)) :
+    ∀ e ∈ runC c s0 calls, ∀ o, e.call = .op o → isAdvance o = true → ∀ f, e.res.frame = some f →
+      e.res.st.step ≠ e.res.st.max →
+      (e.t : Int) - (e.pre.lastWriteTime : Int) ≥ (e.cfg.minInterval : Int) ∧
+      (period e.cfg e.res.st.max e.pre.step ≠ period e.cfg e.res.st.max e.res.st.step ∨
+        (e.t : Int) - (e.pre.lastWriteTime : Int) ≥ (e.cfg.maxInterval : Int)) := by
+  intro e he o ho ha f hf hne
+  rw [runC_event c s0 calls e he, ho] at hf hne ⊢
+  exact step_throttle e.cfg e.pre o e.t f ha hf hne
+
+/-- **Spacing under the interval in force.**  In any history with setters on an output that is not
+quiet: if call `e1` wrote something, the calls between (operations or setters) wrote nothing, and
+`e2` is an `advance` / `set_progress` that redraws at a step other than the maximum, then `e2`
+comes at least the minimum interval configured at the time of `e2` after `e1` - whatever the
+interval was when `e1` drew its frame. -/
+theorem throttle_spacing_current_config (c : Config) (hq : c.quiet = false) (s0 : State)
+    (calls : List (Call × Nat)) (evs1 : List CEvent) (e1 : CEvent) (evs2 : List CEvent) (e2 : CEvent)
+    (evs3 : List CEvent) (h : runC c s0 calls = evs1 ++ e1 :: (evs2 ++ e2 :: evs3))
+    (hw : e1.res.writes ≠ []) (hsilent : ∀ e ∈ evs2, e.res.writes = [])
+    (o : Op) (ho : e2.call = .op o) (ha : isAdvance o = true) (f : Frame) (hf : e2.res.frame = some f)
+    (hne : e2.res.st.step ≠ e2.res.st.max) :
+    (e2.t : Int) - (e1.t : Int) ≥ (e2.cfg.minInterval : Int) := by
+  have hlw := runC_last_write evs1 c s0 calls e1 evs2 e2 evs3 hq h hw hsilent
+  have hmem : e2 ∈ runC c s0 calls := by rw [h]; simp
+  have := (throttle_current_config c s0 calls e2 hmem o ho ha f hf hne).1
+  rw [hlw] at this
+  exact this
+
+/-- the interval in force after `min_seconds_between_redraws(x)` with `x > 0` is `x` -/
+theorem min_interval_setter (c : Config) (ticks : Nat) (h : ticks > 0) :
+    (c.set (.minInterval ticks)).minInterval = ticks := by
+  simp [Config.set, h]
+
+/-- **Reaching the maximum always draws**, also between setters. -/
+theorem max_always_draws_current_config (c : Config) (hq : c.quiet = false) (s0 : State)
+    (calls : List (Call × Nat)) :
+    ∀ e ∈ runC c s0 calls, ∀ o, e.call = .op o → isAdvance o = true → e.res.st.step = e.res.st.max →
+      e.res.frame.isSome ∨ e.res.err.isSome := by
+  intro e he o ho ha hmax
+  have hq' : e.cfg.quiet = false := by rw [runC_quiet c s0 calls e he, hq]
+  rw [runC_event c s0 calls e he, ho] at hmax ⊢
+  exact step_at_max e.cfg e.pre o e.t hq' ha hmax
+
+/-- **Quiet.**  A quiet output receives nothing; no setter can change that. -/
+theorem quiet_nothing_current_config (c : Config) (hq : c.quiet = true) (s0 : State)
+    (calls : List (Call × Nat)) : ∀ e ∈ runC c s0 calls, e.res.writes = [] := by
+  intro e he
+  have hq' : e.cfg.quiet = true := by rw [runC_quiet c s0 calls e he, hq]
+  rw [runC_event c s0 calls e he]
+  cases hc : e.call with
+  | op o => exact step_quiet e.cfg e.pre o e.t hq'
+  | set x => rfl
+
+/-- **Step bounds and exact percentage** in histories with setters. -/
+theorem frames_truthful_current_config (c : Config) (m : Int) (t0 : Nat) (calls : List (Call × Nat)) :
+    ∀ e ∈ runC c (init m t0) calls,
+      (e.res.st.max ≠ 0 → e.res.st.step ≤ e.res.st.max) ∧
+      ∀ f, e.res.frame = some f →
+        f.current = e.res.st.step ∧ f.max = e.res.st.max ∧
+        f.percent = (if f.max = 0 then 0 else f.current * 100 / f.max) ∧
+        (f.max ≠ 0 → f.current ≤ f.max ∧ (f.percent = 100 ↔ f.current = f.max)) := by
+  intro e he
+  have hb := (runC_invariant Bounded (fun c s op t h => step_bounded c s op t h)
+    (fun s x h => by unfold Bounded at *; rw [(afterSetter_fields s x).1, (afterSetter_fields s x).2.1]; exact h)
+    c _ calls (init_bounded m t0) e he).2
+  refine ⟨hb, ?_⟩
+  intro f hf
+  rw [runC_event c _ calls e he] at hf hb ⊢
+  cases hc : e.call with
+  | set x => rw [hc] at hf; simp [stepC] at hf
+  | op o =>
+    rw [hc] at hf hb
+    have hok := step_frameOK e.cfg e.pre o e.t f hf
+    refine ⟨hok.1, hok.2.1, hok.2.2, ?_⟩
+    intro hm
+    have hle : f.current ≤ f.max := by
+      rw [hok.1, hok.2.1]
+      exact hb (by show (step e.cfg e.pre o e.t).st.max ≠ 0; rw [← hok.2.1]; exact hm)
+    refine ⟨hle, ?_⟩
+    rw [hok.2.2, if_neg hm]
+    exact percent_full_iff f.current f.max hm hle
+
+/-- **Bar width as configured at the time of the frame**: whenever the three bar characters in
+force at a call are single characters, the bar segment of the frame drawn by that call is exactly as
+wide as the width in force at that call. -/
+theorem bar_width_current_config (c : Config) (m : Int) (t0 : Nat) (calls : List (Call × Nat)) :
+    ∀ e ∈ runC c (init m t0) calls, SingleChars e.cfg → e.cfg.barWidth < 2 ^ 52 →
+      ∀ f b, e.res.frame = some f → f.bar = some b → b.length = e.cfg.barWidth := by
+  intro e he hc hw f b hf hb
+  have hp := (runC_invariant PctInv (fun c s op t h => step_pct c s op t h)
+    (fun s x h => by unfold PctInv at *; rw [(afterSetter_fields s x).2.2.1]; exact h)
+    c _ calls (init_pct m t0) e he).1
+  rw [runC_event c _ calls e he] at hf
+  cases hcall : e.call with
+  | set x => rw [hcall] at hf; simp [stepC] at hf
+  | op o =>
+    rw [hcall] at hf
+    obtain ⟨s', hp', hs'⟩ := step_frameOf e.cfg e.pre o e.t f hp hf
+    rw [hs'] at hb
+    exact frameOf_bar_length e.cfg s' f.text b hc hp' hw hb
+
+/-- **Setters are silent** and leave step, maximum and the time of the last write alone. -/
+theorem setter_silent (c : Config) (s : State) (x : Setter) (t : Nat) :
+    (stepC c s (.set x) t).2.writes = [] ∧ (stepC c s (.set x) t).2.st.step = s.step ∧
+    (stepC c s (.set x) t).2.st.max = s.max ∧
+    (stepC c s (.set x) t).2.st.lastWriteTime = s.lastWriteTime :=
+  ⟨rfl, (afterSetter_fields s x).1, (afterSetter_fields s x).2.1, (afterSetter_fields s x).2.2.2⟩
+
+/-- A history without setters is a history of the fixed-configuration model: all theorems about
+`run` are theorems about such `runC` histories. -/
+theorem run_is_runC (c : Config) (s : State) (ops : List (Op × Nat)) :
+    runC c s (ops.map (fun x => (Call.op x.1, x.2))) = (run c s ops).map (Event.lift c) :=
+  runC_ops c s ops
+
+/-- ... and the deciders the driver evaluates on a history with setters (`cleanCallsB`, `noErrCB`)
+are, on a history without setters, the deciders of `hyps_decide`. -/
+theorem deciders_without_setters (c : Config) (s : State) (ops : List (Op × Nat)) :
+    cleanCallsB (ops.map (fun x => (Call.op x.1, x.2))) = cleanOpsB ops ∧
+    noErrCB (runC c s (ops.map (fun x => (Call.op x.1, x.2)))) = noErrB (run c s ops) := by
+  refine ⟨?_, ?_⟩
+  · simp [cleanCallsB, cleanOpsB, List.all_map, Function.comp_def, cleanCallB]
+  · rw [runC_ops]
+    simp [noErrCB, noErrB, List.all_map, Function.comp_def, Event.lift]
+
+/-- Non-vacuity (the shape of the round-8 seeded change): maximum 50, interval 1/8 s; a frame at
+t = 64000, then `min_seconds_between_redraws(2 s)`; the advance to step 5 half a second later
+crosses a step period but is throttled by the NEW interval; the one 2 s later draws. -/
+example :
+    ((runC (mkConfig .ansi false 0 120 8 none none (some 10) none none none none) (init 50 64000)
+      [(.op (.start none), 64000), (.set (.minInterval 128), 64001), (.op (.advance 5), 64032),
+       (.op (.advance 5), 64128)]).map (fun e => e.res.frame.isSome)) = [true, false, false, true] := by
+  decide +kernel
 
 end Clikit.Props.C16
